@@ -235,7 +235,7 @@ func Solve(vc *VC, opts SolveOpts) error {
 	gsem := make(chan struct{}, workers)
 	for gi, g := range order {
 		ms := groups[g]
-		if len(ms) < 2 || (opts.SecondOpin) {
+		if len(ms) < 2 {
 			continue
 		}
 		gwg.Add(1)
@@ -267,7 +267,7 @@ func Solve(vc *VC, opts SolveOpts) error {
 				return
 			}
 			fb := fmt.Sprintf("%s.g%d", base, gi)
-			if err := solveOne(vc, syn, fb, []Solver{Solvers[0], Solvers[1]}, first, false, false); err == nil && syn.Status == "unsat" {
+			if err := solveOne(vc, syn, fb, []Solver{Solvers[0], Solvers[1]}, first, opts.SecondOpin, false); err == nil && syn.Status == "unsat" {
 				cachePut(opts.CacheDir, key, cacheEntry{Status: syn.Status, Solver: syn.Solver, TimeS: syn.TimeS})
 				for _, m := range ms {
 					m.Status, m.Solver, m.TimeS = "unsat", syn.Solver, syn.TimeS/float64(len(ms))
